@@ -21,6 +21,13 @@
 // thorough) and in ascending and in descending order otherwise (then with T1..T8 delivered up
 // front for roots below 6); search = chainkit.BFS over all scenarios at once (chainkit.Multi).
 //
+// POW-mode scenarios p<r>: the whole trunk is delivered (L=3), then the state is put into what a
+// RevertToPOW transaction leaves behind (consensus POW, L frozen; exported fields set directly,
+// because a valid RevertToPOW block needs 12 h without blocks) and a fork rooted at r = L, L-1,
+// L-2 is extended block by block to 4 blocks beyond the tip (ascending; descending too for
+// r=2 / thorough). Under POW there is no depth rule, only the comparison with L stands in the
+// way, however far the refused fork gets ahead. ReorganizeChain is not offered there.
+//
 // Oracles after every operation:
 //
 //	monotonic   if the best height did not go down, GetLastIrreversibleHeight did not go down
@@ -33,7 +40,9 @@
 // every sequence of 30 consecutive synthetic blocks from height 5 that contains at most 2
 // (quick) / 3 (thorough) consensus-mode transactions, each placed where the repository's own validity rules allow it
 // (RevertToPOW only while DPOS; RevertToDPOS only while POW with no pending work height). After
-// every block: L did not decrease. (Forward progress only; rollback = C21.)
+// every block: L did not decrease, and State.IsIrreversible(height, d) answers true for every d
+// that would detach a height <= L, whatever the consensus mode (reference: plain comparison).
+// (Forward progress only; rollback = C21.)
 package main
 
 import (
@@ -65,6 +74,7 @@ const (
 	h0       = 7 // RevertToPOWStartHeight: first height at which L is recorded
 	trunkLen = 9 // h0 + 2
 	forkTop  = trunkLen + 1
+	powTop   = trunkLen + 4 // fork tip height in the POW-mode scenarios
 )
 
 func regime(p *config.Configuration) {
@@ -94,6 +104,7 @@ type nodeSys struct {
 
 	evFail *chainkit.Fail
 	lAtOp  uint32
+	pow    bool
 }
 
 // scenario name: r<root>-<mode>
@@ -103,6 +114,14 @@ func scenarioNames(tier string) []string {
 		allMax = 7
 	}
 	var out []string
+	// consensus POW with a frozen L=3 (set after the whole trunk): forks rooted at L, L-1, L-2,
+	// extended block by block to 4 blocks beyond the tip
+	for r := 3; r >= 1; r-- {
+		out = append(out, fmt.Sprintf("p%d-asc", r))
+		if tier == "thorough" || r == 2 {
+			out = append(out, fmt.Sprintf("p%d-desc", r))
+		}
+	}
 	for r := trunkLen - 1; r >= 1; r-- {
 		if forkTop-r <= allMax {
 			out = append(out, fmt.Sprintf("r%d-all", r))
@@ -116,7 +135,8 @@ func scenarioNames(tier string) []string {
 func newNodeSys(name string) chainkit.System {
 	var r int
 	var mode string
-	parts := strings.SplitN(strings.TrimPrefix(name, "r"), "-", 2)
+	pow := name[0] == 'p'
+	parts := strings.SplitN(name[1:], "-", 2)
 	r, _ = strconv.Atoi(parts[0])
 	mode = parts[1]
 	n, err := chainkit.NewNode(cfg())
@@ -130,6 +150,11 @@ func newNodeSys(name string) chainkit.System {
 	if mode != "all" && r < 6 {
 		preLen = 8
 	}
+	top := forkTop
+	if pow {
+		preLen = trunkLen
+		top = powTop
+	}
 	s := &nodeSys{n: n, root: r, mode: mode, byHash: map[common.Uint256]string{}, pinned: map[uint32]common.Uint256{}, c: map[string]int{}}
 	parent := n.Genesis()
 	for i := 1; i <= trunkLen; i++ {
@@ -139,7 +164,7 @@ func newNodeSys(name string) chainkit.System {
 		parent = b
 	}
 	parent = s.trunk[r-1]
-	for h := r + 1; h <= forkTop; h++ {
+	for h := r + 1; h <= top; h++ {
 		b := n.BuildBlock(parent, nil, 1)
 		s.fork = append(s.fork, b)
 		s.byHash[b.Hash()] = fmt.Sprintf("F%d", h)
@@ -153,8 +178,20 @@ func newNodeSys(name string) chainkit.System {
 		}
 	}
 	s.tNext = preLen
-	if l := s.L(); (preLen == 6 && l != 0) || (preLen == 8 && l != 2) {
+	if l := s.L(); (preLen == 6 && l != 0) || (preLen == 8 && l != 2) || (preLen == trunkLen && l != 3) {
 		evid.Fatalf("C30: L=%d after a prefix of %d blocks", l, preLen)
+	}
+	s.pow = pow
+	if pow {
+		// The state a RevertToPOW transaction in the tip block leaves behind
+		// (State.processRevertToPOW): consensus POW, no pending work height, L frozen. Set
+		// directly (exported fields) because a valid RevertToPOW block needs 12 h without
+		// blocks; only forks the guard must refuse are offered here, so the state machine is
+		// never rolled back across the injected change on the unchanged tree.
+		st := n.Chain.GetState()
+		st.ConsensusAlgorithm = state.POW
+		st.DPOSWorkHeight = 0
+		st.RevertToPOWBlockHeight = uint32(trunkLen)
 	}
 	s.pin()
 	n.OnEvent = func(e *events.Event) {
@@ -210,8 +247,10 @@ func (s *nodeSys) Ops() []string {
 			}
 		}
 	}
-	// exported ReorganizeChain on the highest fork block the node holds as a side block
-	for i := len(s.fork) - 1; i >= 0; i-- {
+	// exported ReorganizeChain on the highest fork block the node holds as a side block (not in
+	// the POW-mode scenarios: there the entry's guard, computed from the target's height, lets a
+	// long enough refused fork through — the unreachable-entry observation of MUTANTS.md)
+	for i := len(s.fork) - 1; i >= 0 && !s.pow; i-- {
 		h := s.fork[i].Hash()
 		if s.fDone[i] && s.n.Chain.BlockExists(&h) && !s.n.Chain.IsKnownOrphan(&h) {
 			// only towards a side block at least as high as the tip (the situation of the entry's
@@ -282,7 +321,7 @@ func (s *nodeSys) Apply(op string) *chainkit.Fail {
 				all = false
 			}
 		}
-		if all && hAfter < uint32(forkTop) {
+		if all && hAfter < s.fork[len(s.fork)-1].Height {
 			s.c["heavier_fork_refused_by_guard"]++
 		}
 	}
@@ -368,15 +407,17 @@ type stReq struct {
 }
 
 type stResp struct {
-	Sequences int            `json:"sequences"`
-	Blocks    int            `json:"blocks"`
-	Placed    int            `json:"mode_txs_placed"`
-	Skipped   int            `json:"mode_txs_not_allowed"`
-	ToPOW     int            `json:"to_pow"`
-	ToDPOS    int            `json:"to_dpos_effective"`
-	LMoves    int            `json:"l_increments"`
-	Fails     []stFail       `json:"fails,omitempty"`
-	Shapes    map[string]int `json:"shapes,omitempty"`
+	Sequences       int            `json:"sequences"`
+	Blocks          int            `json:"blocks"`
+	Placed          int            `json:"mode_txs_placed"`
+	Skipped         int            `json:"mode_txs_not_allowed"`
+	ToPOW           int            `json:"to_pow"`
+	ToDPOS          int            `json:"to_dpos_effective"`
+	LMoves          int            `json:"l_increments"`
+	GuardEvals      int            `json:"guard_evaluations"`
+	GuardMustRefuse int            `json:"guard_evaluations_that_must_refuse"`
+	Fails           []stFail       `json:"fails,omitempty"`
+	Shapes          map[string]int `json:"shapes,omitempty"`
 }
 
 type stFail struct {
@@ -452,6 +493,22 @@ func runStateSeq(pos []int, out *stResp) *chainkit.Fail {
 		}
 		if lAfter > lBefore {
 			out.LMoves++
+		}
+		// guard: with `height` as the best height, detaching d blocks removes the heights
+		// height-d+1..height; whatever the consensus mode, that must be refused as soon as one of
+		// them is at or below the recorded L (independent reference: plain comparison)
+		if lAfter > 0 && height > p.CRCOnlyDPOSHeight {
+			for d := 1; d <= int(height); d++ {
+				out.GuardEvals++
+				if height-uint32(d) < lAfter {
+					out.GuardMustRefuse++
+					if !st.IsIrreversible(height, d) {
+						return chainkit.Failf("C30|guard|detach-at-or-below-L-allowed|state-tier|algo="+st.GetConsensusAlgorithm().String(),
+							"after State.ProcessBlock(height %d, mode-tx positions %v): IsIrreversible(%d, %d) = false although that detaches height %d <= last irreversible height %d (consensus %s)",
+							height, pos, height, d, height-uint32(d)+1, lAfter, st.GetConsensusAlgorithm())
+					}
+				}
+			}
 		}
 		if lAfter < lBefore {
 			return chainkit.Failf("C30|monotonic|L-decreased|state-tier|algo="+st.GetConsensusAlgorithm().String(),
@@ -599,6 +656,8 @@ func main() {
 		stTot.ToPOW += o.ToPOW
 		stTot.ToDPOS += o.ToDPOS
 		stTot.LMoves += o.LMoves
+		stTot.GuardEvals += o.GuardEvals
+		stTot.GuardMustRefuse += o.GuardMustRefuse
 		for k, v := range o.Shapes {
 			stTot.Shapes[k] += v
 		}
@@ -615,7 +674,7 @@ func main() {
 	var critical, rest []string
 	for _, nm := range scenarioNames(r.Tier) {
 		var root int
-		fmt.Sscanf(nm, "r%d-", &root)
+		fmt.Sscanf(nm[1:], "%d-", &root)
 		if root <= 3 {
 			critical = append(critical, nm)
 		} else {
@@ -688,12 +747,12 @@ func main() {
 			"totals": stTot, "distinct_transaction_shapes": shapeCount,
 			"space": fmt.Sprintf("all sequences of %d consecutive blocks from height %d with <= %d consensus-mode transactions (RevertToPOW / RevertToDPOS chosen by the current mode), %d position sets", stLen, stStart, stMaxTx, len(sets)),
 		},
-		"rule":    "node tier: for every fork root r in [L-2, tip-1] = [1,8] a BFS over all interleavings of {next trunk block T7..T9, fork blocks F(r+1)..F10 (every order for short forks, ascending and descending order for long ones), ReorganizeChain(highest known side fork block)} on a fresh chainkit node per transition; oracles: L never decreases unless the best height decreases, GetBlockHash(k) pinned for k <= max L seen, no ETBlockDisconnected at height <= L. state tier: exhaustive placement of <= 2 (quick) / 3 (thorough) consensus-mode transactions in 30 blocks driven through State.ProcessBlock; oracle: L never decreases",
+		"rule":    "node tier: POW-consensus scenarios (trunk of 9 delivered, consensus set to POW with L=3 frozen, forks rooted at 3, 2, 1 extended block by block to height 13) and, under DPOS, for every fork root r in [L-2, tip-1] = [1,8] a BFS over all interleavings of {next trunk block T7..T9, fork blocks F(r+1)..F10 (every order for short forks, ascending and descending order for long ones), ReorganizeChain(highest known side fork block)} on a fresh chainkit node per transition; oracles: L never decreases unless the best height decreases, GetBlockHash(k) pinned for k <= max L seen, no ETBlockDisconnected at height <= L. state tier: exhaustive placement of <= 2 (quick) / 3 (thorough) consensus-mode transactions in 30 blocks driven through State.ProcessBlock; oracles: L never decreases; IsIrreversible(height, d) is true for every d that detaches a height <= L in either consensus mode",
 		"samples": samples,
 	}
 	r.Assume = append(r.Assume,
 		"node tier: blocks carry no DPoS confirmations and enter through BlockChain.ProcessBlock / ReorganizeChain directly (the confirmation-gating block pool is not in the loop); consensus algorithm stays DPOS there",
-		"consensus-mode transitions are covered on the state tier only (State.ProcessBlock, no validation, transactions placed where the node's rules allow them); the reorganisation guard in POW consensus mode is not driven on the node tier",
+		"consensus-mode transitions themselves are driven on the state tier only (State.ProcessBlock, no validation, transactions placed where the node's rules allow them); on the node tier the POW mode with a frozen L is injected through the State's exported fields after the trunk, and only forks the guard must refuse are offered there (a permitted reorganisation would roll the state machine back across the injected change)",
 		"rollback of the recorded height is C21's subject; here only forward progress is judged")
 	r.Finish(cov)
 }
